@@ -398,6 +398,9 @@ def replay_distance(job):
             for entry, calc in todo:
                 calls += 1
                 expd = {k: formula(calc, p["cnt"], p["total"], p["diff"], p["jc"]) for k, p in pairs.items()}
+                for k, p in pairs.items():
+                    if p["total"] == 0 and p["same"]:
+                        expd[k] = OPEN  # equal sequences without a valid column: 0 by identity or undefined
                 detail = {"entry": entry, "calc": calc, "seqs": data, "array_align": array_align, "columns": vname}
                 try:
                     dm = _run_entry(entry, calc, aln)
@@ -436,12 +439,7 @@ def replay_distance(job):
                         if agrees(e, v):
                             continue
                         d2 = {**detail, "pair": [i, j], "count_matrix_ACGT": p["cnt"], "expected": repr(e), "observed": v}
-                        if (not p["exact"] and not rec["to"]["canonical"]
-                                and agrees_pred(_shortcut_prediction(calc, pairs, p), v)):
-                            # the value is the one the duplicate shortcut (run/_expand) copies
-                            d2["shortcut_source"] = p["src"]
-                            fails.append(("dist:dup-shortcut:noncanonical-symbols", d2))
-                            continue
+                        d2["shortcut_source"] = p["src"]  # where run/_expand take this pair's value from (Distance.tla)
                         cls = ("expected-invalid-got-value" if e == INVALID else
                                "expected-value-got-invalid" if math.isnan(v) else "value")
                         cols = "canonical-columns" if rec["to"]["canonical"] else "noncanonical-columns"
@@ -458,20 +456,3 @@ def _thin(fails, per_key=3):
         seen[key] = seen.get(key, 0) + 1
         out.append((key, detail if seen[key] <= per_key else None))
     return out
-
-
-def _shortcut_prediction(calc, pairs, p):
-    """what the duplicate shortcut (run/_expand, modelled in Distance.tla) yields for this pair"""
-    src = p["src"]
-    if src == [0, 0]:
-        return ("value", 0.0)
-    if src == [0, 1]:
-        return INVALID
-    q = pairs[tuple(sorted(src))]
-    return formula(calc, q["cnt"], q["total"], q["diff"], q["jc"])
-
-
-def agrees_pred(e, v):
-    if e == OPEN:
-        return True
-    return agrees(e, v)
